@@ -516,6 +516,34 @@ class C07(Prop):
         return {"results": results, "histogram": hist, "distinct_nontrivial": len(seen), "samples": samples}
 
 
+class VerdictProp(Prop):
+    """Scripted histories: the harness drives the real code and records observations; the Lean driver decides whether the
+    observations are among those the model allows (membership: scheduling / wake-up order is Go's choice)."""
+
+    def compare(self, case, impl, model, spec):
+        if not isinstance(impl, dict) or impl.get("class") != "ok":
+            return False, False, "harness could not run the history: %r" % (impl,)
+        v = (model or {}).get("verdict")
+        ok = v == "ok"
+        return ok, ok, ("%s: %s" % (case.get("bucket"), v)) + ("" if ok else " | script=%s obs=%s" % (json.dumps(case.get("script"))[:400], json.dumps(impl)[:600]))
+
+    def nontrivial(self, case, impl):
+        return case.get("nops", 0) >= 4
+
+
+class C09(VerdictProp):
+    id = "C09"
+    n_quick = 150
+    n_thorough = 2500
+    batch = 400
+    required_theorems = ["C09_shape", "C09_bound", "C09_no_leak", "C09_cancel", "C09_disabled", "C09_quiescent", "C09_admit_enabled"]
+    rule = ("random scripted histories (3-14 operations quick / 3-60 thorough) for limits N in {-1, 0..4}: starts of renders that block inside a harness-supplied template "
+            "function and later exit by success / template-function error / panic, renders of a missing template, renders with an already-cancelled context, releases, "
+            "cancellations of waiting or admitted renders, probes; one observation of the set of renders inside after every operation (at quiescence), every outcome, and "
+            "after the history N fresh renders started together. The Lean driver checks membership of the observations in the gate model. Non-trivial: >= 4 operations.")
+    assumptions = ["Go channel, select and defer semantics are assumed (modelled as atomic steps); quiescence is reached by bounded polling"]
+
+
 WS = " \t\r\n"
 
 
@@ -574,4 +602,4 @@ class C13(Prop):
         return "%s/%s" % (case.get("from"), out_of((impl or {}).get("prod"))[0])
 
 
-PROPS = {p.id: p for p in [C01(), C02(), C03(), C04(), C05(), C06(), C07(), C11(), C12(), C13(), C17(), C18(), C20()]}
+PROPS = {p.id: p for p in [C01(), C02(), C03(), C04(), C05(), C06(), C07(), C09(), C11(), C12(), C13(), C17(), C18(), C20()]}
